@@ -121,13 +121,22 @@ impl Server {
             let gate_dir = PathBuf::from("/verif/target/gates").join(format!("rsv-gates-{}-{}", std::process::id(), port));
             let _ = std::fs::remove_dir_all(&gate_dir);
             std::fs::create_dir_all(&gate_dir).map_err(|e| e.to_string())?;
-            let child = Command::new(SERVER_BIN)
-                .arg(port.to_string())
+            let mut cmd = Command::new(SERVER_BIN);
+            cmd.arg(port.to_string())
                 .env("RSSCHED_VERIF_GATE_DIR", &gate_dir)
                 .env("RAYON_NUM_THREADS", "4")
                 .stdin(Stdio::null())
                 .stdout(Stdio::null())
-                .stderr(Stdio::null())
+                .stderr(Stdio::null());
+            // the server must not outlive the check
+            unsafe {
+                use std::os::unix::process::CommandExt;
+                cmd.pre_exec(|| {
+                    libc::prctl(libc::PR_SET_PDEATHSIG, libc::SIGKILL);
+                    Ok(())
+                });
+            }
+            let child = cmd
                 .spawn()
                 .map_err(|e| format!("cannot start {}: {}", SERVER_BIN, e))?;
             let mut srv = Server { child, port, gate_dir };
